@@ -206,7 +206,10 @@ class Attribute(_BaseAttribute):
     def __getitem__(self, key):
         if key in self._data:
             return self._data[key]
-        return self.default_value
+        default = self.default_value
+        if isinstance(default, np.ndarray):
+            return default.copy() # never hand out the shared default vector
+        return default
 
     def __setitem__(self, key, value):
         if self.elemsize>1:
